@@ -1,9 +1,9 @@
-SPECIFICATION Spec
+SPECIFICATION FairSpec
 CONSTANTS
   Record = FALSE
-  Works <- Works33
+  Works <- WorksS2
   FaultChoices <- FaultsNone
-
+PROPERTY Termination
 INVARIANT TypeOK
 INVARIANT HolderOnly
 INVARIANT Contiguous
